@@ -495,6 +495,14 @@ pub fn seed_crowd(k: &K, n: u32) -> Sim {
     sc.with(|s| advance(pending_due(s).max(s.w.time + 1))).done()
 }
 
+/// a store that still holds reply bookkeeping of an earlier release (the 1.0.0 -> 1.1.0 migration carries such
+/// entries over; current code removes its own entry inside the transaction that wrote it)
+pub fn leftover_reply(mut s: Sim, k: &K) -> Sim {
+    let e = staking::state::IbcWaitingForReply { amount: cosmwasm_std::Coin::new(77, sd()), receiver: n20(k, "staker") };
+    staking::state::IBC_WAITING_FOR_REPLY.save(&mut s.w.kv, 4_000_000_001, &e).expect("save leftover reply");
+    s
+}
+
 /// block time beyond 2^32 seconds and deadlines more than 2^32 seconds apart
 pub fn seed_far_future(k: &K) -> Sim {
     let mut sc = Script::resumed(k).run(stake(&u(1), 100)).run(stake(&u(2), 60));
